@@ -133,13 +133,16 @@ class Report:
         self.worlds = []
         self.assumptions = []
         self.not_decided = []
+        self.alias = {}
+        self.suffix = ''
 
     def rule(self, rid, desc, floor=None):
-        r = Rule(self, rid, desc, floor)
+        r = Rule(self, rid + self.suffix, desc, floor)
         self.rules.append(r)
         return r
 
     def world(self, name):
+        name = self.alias.get(name, name)
         if name not in self.worlds:
             self.worlds.append(name)
         return world(self.repo, name)
@@ -161,6 +164,16 @@ def run_check(prop, fn, tier, repo, explanation, assumptions, not_decided):
     os.makedirs(os.path.dirname(ev_path), exist_ok=True)
     try:
         fn(rep)
+        if tier == 'thorough' and prop not in ('C09', 'C10'):
+            # second pass: the same rules over the optimised (release) world, where the #[cfg(not(debug_assertions))] items
+            # and the unchecked arms are the ones that exist
+            rep.alias = {'dev': 'rel'}
+            rep.suffix = '@rel'
+            rep.tier = 'thorough-rel'
+            fn(rep)
+            rep.alias = {}
+            rep.suffix = ''
+            rep.tier = tier
         for r in rep.rules:
             r.finish()
     except Broken as b:
@@ -184,11 +197,15 @@ def run_check(prop, fn, tier, repo, explanation, assumptions, not_decided):
     kf = []
     for r in rep.rules:
         for (key, detail, loc) in r.violations:
-            if key in known:
-                kf.append((key, detail, loc))
+            if key in known or key.replace('@rel', '') in known:
+                kf.append((key.replace('@rel', ''), detail, loc))
             else:
                 new.append((key, detail, loc))
+    printed = set()
     for (key, detail, loc) in kf:
+        if key in printed:
+            continue
+        printed.add(key)
         print('KNOWN-FINDING: property=%s %s -- %s [%s]' % (prop, key, known[key].get('what', detail), loc))
     obligations = sum(r.obligations for r in rep.rules)
     discharged = sum(r.discharged for r in rep.rules)
